@@ -150,22 +150,19 @@ EXPORT int snwprintf_s(wchar_t *restrict dest, rsize_t dmax,
         }
     }
 
-    if (unlikely(fmt == NULL)) {
-        *dest = L'\0';
-        handle_werror(dest, dmax, "snwprintf_s: fmt is null", ESNULLP);
-        return -(ESNULLP);
-    }
-
     if (unlikely(dmax == 0)) {
-        *dest = L'\0';
         invoke_safe_str_constraint_handler("snwprintf_s: dmax is 0",
                                            (void *)dest, ESZEROL);
         return -(ESZEROL);
     }
 
+    if (unlikely(fmt == NULL)) {
+        handle_werror(dest, dmax, "snwprintf_s: fmt is null", ESNULLP);
+        return -(ESNULLP);
+    }
+
     if (unlikely(safec_wfmt_has_n(fmt, 0))) {
-        invoke_safe_str_constraint_handler("snwprintf_s: illegal %n",
-                                           (void *)dest, EINVAL);
+        handle_werror(dest, dmax, "snwprintf_s: illegal %n", EINVAL);
         return -(EINVAL);
     }
 
